@@ -14,6 +14,7 @@ try:
     repo = Repo(f'{d}/r')
     info = repo.normal_info
     print({k: v for k, v in info.items() if k != 'bailed'})
+    print('EQUIV', {k: v for k, v in repo.equiv_info.items()})
     for b in info.get('bailed', []):
         print('  BAIL', b)
     if len(sys.argv) > 2:
